@@ -103,6 +103,8 @@ type interpreter struct {
 	preemptLeft        int
 	inSchedPoint       bool
 	hraftNodes         []*hraftNode
+	memfs              *memFS
+	tickers            []chan value
 	hraftIndex         int
 	freePort           int
 	spinLoads          map[*value]int
